@@ -1,14 +1,17 @@
 #!/bin/sh
-# usage: tools/try_mutant.sh <patch.diff> <PROP> [<PROP> ...]   (applies to /repo, runs quick checks, reverts)
-P="$1"; shift
+# usage: tools/try_mutant.sh <patch.diff> <PROP> [<PROP> ...]
+# Applies the patch to a scratch worktree of /repo (never to /repo itself), runs the quick checks against it with
+# their own work/evidence/replay directories, and removes the worktree.
+P="$(readlink -f "$1")"; shift
+S=/tmp/wt/mut.$$
+git -C /repo worktree add -q --detach $S HEAD || exit 2
+trap 'git -C /repo worktree remove --force $S; rm -rf /tmp/wt/mutwork.$$' EXIT INT TERM
+git -C $S apply "$P" || { echo "patch does not apply"; exit 2; }
 cd /verif
-git -C /repo diff --quiet || { echo "/repo is dirty"; exit 2; }
-git -C /repo apply "$P" || { echo "patch does not apply"; exit 2; }
-trap 'git -C /repo checkout -- . ; echo reverted' EXIT INT TERM
 for prop in "$@"; do
   s=$(date +%s)
-  out=$(VERIF_SEED=${VERIF_SEED:-1} ./check.py $prop --tier ${TIER:-quick} 2>&1); rc=$?
+  out=$(NUCS_REPO=$S VERIF_WORK=/tmp/wt/mutwork.$$/work VERIF_EVIDENCE_DIR=/tmp/wt/mutwork.$$/ev VERIF_REPLAY_DIR=/tmp/wt/mutwork.$$/rp VERIF_SEED=${VERIF_SEED:-1} ./check.py $prop --tier ${TIER:-quick} 2>&1); rc=$?
   e=$(date +%s)
   echo "== $prop rc=$rc $((e-s))s"
-  echo "$out" | grep -E "^violation|VIOLATION|HARNESS|tier=" | head -${LINES_MAX:-6}
+  echo "$out" | grep -E "^violation|HARNESS|tier=" | head -${LINES_MAX:-4} | cut -c1-400
 done
